@@ -901,7 +901,6 @@ asn_INTEGER2imax(const INTEGER_t *iptr, intmax_t *lptr) {
 	return 0;
 }
 
-/* FIXME: negative INTEGER values are silently interpreted as large unsigned ones. */
 int
 asn_INTEGER2umax(const INTEGER_t *iptr, uintmax_t *lptr) {
 	uint8_t *b, *end;
@@ -916,6 +915,12 @@ asn_INTEGER2umax(const INTEGER_t *iptr, uintmax_t *lptr) {
 	b = iptr->buf;
 	size = iptr->size;
 	end = b + size;
+
+	if(size && (*b & 0x80)) {
+		/* A negative value can not be represented in an unsigned type */
+		errno = ERANGE;
+		return -1;
+	}
 
 	/* If all extra leading bytes are zeroes, ignore them */
 	for(; size > sizeof(value); b++, size--) {
